@@ -187,10 +187,11 @@ pub fn plan_c09(thorough: bool) -> Plan {
         }
     }
     add_quiet(&mut cases, if thorough { 1 } else { 5 });
+    cases.extend(writeless_overlay_family());
     sort_by_bound(&mut cases);
     let mut p = Plan::new(
         cases,
-        "histx: every sequence of ≤L symbols over {4 fixed commit batches (1 B, 1333 B, 8 KiB values, deletes), the empty commit, commit of an overlay, rollback(1), rollback(2), rollback(3), reopen} for max_rollback_log_len ∈ {0,1,2,3} × rollback segment size ∈ {4 KiB (one record per segment), 8 KiB, 64 MiB}, plus a reopen with a different log length at every position; plus every sequence of ≤4 (thorough 5) symbols over {write 70000 B + 61381 B values (18 and 16 overflow pages), blind overwrite, blind delete, rewrite large, rollback(1), rollback(2), COLD reopen = a reopen after which nothing is read back} that contains a cold reopen; plus 'quiet' copies (no reads between the operations, one audit at the end) of histories that reopen; plus explicit two-overlay chains in which the ancestor deletes/rewrites an on-disk key and the descendant writes it (blind and read-then-write, empty values, overflow values), committed in order and rolled back one by one / at once / after a reopen; oracle: rollback(n) with n ≤ retained commits succeeds and values/root/seqn equal the model's state n commits back; a request beyond what exists fails, changes nothing and does not poison; between the two the store may either refuse or be exactly right (it legitimately retains more than configured across a reopen); every history ends with a reopen and audit (the store never becomes unopenable). bound = sequence length.",
+        "histx: every sequence of ≤L symbols over {4 fixed commit batches (1 B, 1333 B, 8 KiB values, deletes), the empty commit, commit of an overlay, rollback(1), rollback(2), rollback(3), reopen} for max_rollback_log_len ∈ {0,1,2,3} × rollback segment size ∈ {4 KiB (one record per segment), 8 KiB, 64 MiB}, plus a reopen with a different log length at every position; plus every sequence of ≤4 (thorough 5) symbols over {write 70000 B + 61381 B values (18 and 16 overflow pages), blind overwrite, blind delete, rewrite large, rollback(1), rollback(2), COLD reopen = a reopen after which nothing is read back} that contains a cold reopen; plus 'quiet' copies (no reads between the operations, one audit at the end) of histories that reopen; plus explicit two-overlay chains in which the ancestor deletes/rewrites an on-disk key and the descendant writes it (blind and read-then-write, empty values, overflow values), committed in order and rolled back one by one / at once / after a reopen; plus every sequence of ≤4 symbols over {two writing commits, an EMPTY overlay committed, a READ-ONLY overlay committed, a read-only overlay on a writing overlay (both committed), rollback(1), rollback(2)} — an overlay that writes nothing is still one commit for rollback; oracle: rollback(n) with n ≤ retained commits succeeds and values/root/seqn equal the model's state n commits back; a request beyond what exists fails, changes nothing and does not poison; between the two the store may either refuse or be exactly right (it legitimately retains more than configured across a reopen); every history ends with a reopen and audit (the store never becomes unopenable). bound = sequence length.",
     );
     p.budget_s = if thorough { 1700 } else { 55 };
     p
@@ -510,10 +511,11 @@ pub fn plan_c11(thorough: bool) -> Plan {
     }
     cases.extend(attempt_in_between_family());
     cases.extend(disjoint_pages_chain_family("all"));
+    cases.extend(writeless_overlay_family());
     sort_by_bound(&mut cases);
     let mut p = Plan::new(
         cases,
-        "histx: every event sequence of length ≤L over {create an overlay on no parent or on any live overlay (with its live ancestor chain), begin a session on a list that is NOT a complete ancestor chain (child without its live parent, reversed chain, unrelated overlays), commit overlay i (blocking / non-blocking), drop overlay i, direct commit, rollback(1|2)} with ≤3 (thorough 4) overlays, from a leaf seed and a 19-key merkle cluster (so overlays create fresh merkle pages); oracle: a session on a complete chain reads, proves and computes the root exactly as the model with the chain applied; SessionParams::overlay is accepted iff the list is a complete ancestor chain; an overlay commit is accepted iff its parent was the last commit (or it has none) and its base is current, and then leaves exactly the state and rollback history of the equivalent direct commits; rejected/dropped/forked overlays leave no trace (audit incl. proofs after every step, final reopen). Start states: leaf seed, 19-key cluster, committed overflow values (ovf2), and an on-disk pair next to 'round' keys inserted by an overlay. Plus the attempt-in-between family: a committed parent overlay, ONE attempt that must leave no trace (an overlay whose parent is not committed / a stale unrelated overlay / a stale prepared session, through the blocking and the non-blocking entry point; the child itself deferred once), then the legitimate child, which must still be accepted; rolled back afterwards. Plus chains whose overlays touch disjoint merkle pages (one inside a stored 20-key cluster page, one under other root children; both orders; two and three levels): after the older overlays are committed one by one, sessions on the remaining younger ones alone must read and prove every key (the pages a committed ancestor wrote are found in the store again), incl. a changeset prepared on the last overlay and committed directly.",
+        "histx: every event sequence of length ≤L over {create an overlay on no parent or on any live overlay (with its live ancestor chain), begin a session on a list that is NOT a complete ancestor chain (child without its live parent, reversed chain, unrelated overlays), commit overlay i (blocking / non-blocking), drop overlay i, direct commit, rollback(1|2)} with ≤3 (thorough 4) overlays, from a leaf seed and a 19-key merkle cluster (so overlays create fresh merkle pages); oracle: a session on a complete chain reads, proves and computes the root exactly as the model with the chain applied; SessionParams::overlay is accepted iff the list is a complete ancestor chain; an overlay commit is accepted iff its parent was the last commit (or it has none) and its base is current, and then leaves exactly the state and rollback history of the equivalent direct commits; rejected/dropped/forked overlays leave no trace (audit incl. proofs after every step, final reopen). Start states: leaf seed, 19-key cluster, committed overflow values (ovf2), and an on-disk pair next to 'round' keys inserted by an overlay. Plus the attempt-in-between family: a committed parent overlay, ONE attempt that must leave no trace (an overlay whose parent is not committed / a stale unrelated overlay / a stale prepared session, through the blocking and the non-blocking entry point; the child itself deferred once), then the legitimate child, which must still be accepted; rolled back afterwards. Plus chains whose overlays touch disjoint merkle pages (one inside a stored 20-key cluster page, one under other root children; both orders; two and three levels): after the older overlays are committed one by one, sessions on the remaining younger ones alone must read and prove every key (the pages a committed ancestor wrote are found in the store again), incl. a changeset prepared on the last overlay and committed directly. Plus the write-less overlay family of C09 (empty / read-only overlays committed between writing commits and rollbacks: same rollback history as the direct commits).",
     );
     p.budget_s = if thorough { 1700 } else { 55 };
     p
@@ -717,6 +719,54 @@ pub fn bulk_warm_up_family(audit: &str) -> Vec<Value> {
         ] {
             cases.push(case("bulk", vec!["seed:all"], &cfg, audit, ops, 3, true));
         }
+    }
+    cases
+}
+
+
+/// Overlays that write nothing (an empty batch, a read-only batch) committed like any other: a
+/// direct commit of such a batch is one commit as far as rollback is concerned, so the overlay's
+/// commit must be one too. Every sequence of ≤4 symbols over {two writing commits, an empty overlay
+/// committed, a read-only overlay committed, a write-less overlay on top of a writing overlay (both
+/// committed), rollback(1), rollback(2)}.
+pub fn writeless_overlay_family() -> Vec<Value> {
+    let symbols: Vec<Vec<Value>> = vec![
+        vec![c(vec![w(0, 1), w(1, 2)])],
+        vec![c(vec![w(1, 1333), del(0)])],
+        vec![json!({"ov": {"id": 0, "on": [], "b": []}}), json!({"ovc": 0})],
+        vec![json!({"ov": {"id": 0, "on": [], "b": [[0, "r"], [2, "r"]]}}), json!({"ovc": 0})],
+        vec![json!({"ov": {"id": 0, "on": [], "b": [w(2, 5)]}}), json!({"ov": {"id": 1, "on": [0], "b": [[2, "r"]]}}), json!({"ovc": 0}), json!({"ovc": 1})],
+        vec![json!({"rb": 1})],
+        vec![json!({"rb": 2})],
+    ];
+    let cfg = rb_cfg(3, 0);
+    let mut cases = vec![];
+    for (ops, n) in sequences(&symbols, 4) {
+        let s = Value::Array(ops.clone()).to_string();
+        if !(s.contains("\"ovc\"") && s.contains("\"rb\"")) {
+            continue;
+        }
+        // overlay ids must be unique per occurrence
+        let mut ops = ops;
+        let mut next_id = 0u64;
+        let mut map: std::collections::BTreeMap<u64, u64> = Default::default();
+        for o in ops.iter_mut() {
+            if o.get("ov").is_some() {
+                let old = o["ov"]["id"].as_u64().unwrap();
+                if old == 0 {
+                    map.clear();
+                }
+                map.insert(old, next_id);
+                o["ov"]["id"] = json!(next_id);
+                let on: Vec<u64> = o["ov"]["on"].as_array().unwrap().iter().map(|x| map[&x.as_u64().unwrap()]).collect();
+                o["ov"]["on"] = json!(on);
+                next_id += 1;
+            } else if o.get("ovc").is_some() {
+                let old = o["ovc"].as_u64().unwrap();
+                o["ovc"] = json!(map[&old]);
+            }
+        }
+        cases.push(case("empty", vec!["U4"], &cfg, "noproof", ops, n, true));
     }
     cases
 }
